@@ -888,8 +888,9 @@ OVR_C_SYMS = ["malloc", "calloc", "realloc", "free", "posix_memalign", "aligned_
 OVR_CXX_SYMS = ["_Znwm", "_Znam", "_ZdlPv", "_ZdaPv", "_ZdlPvm", "_ZdaPvm", "_ZnwmRKSt9nothrow_t", "_ZnamRKSt9nothrow_t", "_ZdlPvRKSt9nothrow_t", "_ZdaPvRKSt9nothrow_t",
                 "_ZnwmSt11align_val_t", "_ZnamSt11align_val_t", "_ZdlPvSt11align_val_t", "_ZdaPvSt11align_val_t", "_ZdlPvmSt11align_val_t", "_ZdaPvmSt11align_val_t",
                 "_ZnwmSt11align_val_tRKSt9nothrow_t", "_ZnamSt11align_val_tRKSt9nothrow_t", "_ZdlPvSt11align_val_tRKSt9nothrow_t", "_ZdaPvSt11align_val_tRKSt9nothrow_t"]
+# every entry point the matrix program references itself (all operator new/delete forms, glibc's internal aliases) must have been bound to the override library
 OVR_MUST_SEE = ["malloc", "calloc", "realloc", "free", "posix_memalign", "aligned_alloc", "memalign", "valloc", "pvalloc", "reallocarray", "malloc_usable_size", "strdup", "strndup",
-                "_Znwm", "_Znam", "_ZdlPv", "_ZdaPv", "_ZdlPvm", "_ZnwmRKSt9nothrow_t", "_ZnamRKSt9nothrow_t", "_ZnwmSt11align_val_t", "_ZnamSt11align_val_t", "_ZdlPvSt11align_val_t", "_ZdlPvRKSt9nothrow_t"]
+                "__libc_malloc", "__libc_calloc", "__libc_realloc", "__libc_free", "__libc_memalign", "__libc_valloc", "__libc_pvalloc", "__posix_memalign"] + OVR_CXX_SYMS
 
 def _bindings(prog, lib, tag):
     """run `prog` with LD_DEBUG=bindings LD_BIND_NOW=1 under the preload; returns (bound_to_lib: {sym: count}, foreign: [(sym, from, to)])"""
@@ -969,7 +970,7 @@ def c19(tier, seed):
     cov = {"entry_point_pairs": ov.get("pairs", 0), "allocations_checked": ov.get("allocations_checked", 0) + ov.get("c_allocations_checked", 0), "libc_internal_allocators": ov.get("libc_internal_allocators", 0),
            "bindings": bind_cov, "whole_programs": whole_cov, "configurations": ["LD_PRELOAD release", "LD_PRELOAD debug (MI_DEBUG=2, foreign pointers are reported)", "LD_PRELOAD + LD_BIND_NOW", "static override object"]}
     rc = v.report()
-    cov.update({"evaluations": int(ov.get("pairs", 0)) + len(whole), "distinct_nontrivial": 22 * 11 if ov.get("pairs", 0) >= 22 * 11 else int(ov.get("pairs", 0)),
+    cov.update({"evaluations": int(ov.get("pairs", 0)) + len(whole), "distinct_nontrivial": 29 * 20 if ov.get("pairs", 0) >= 29 * 20 else int(ov.get("pairs", 0)),
                 "rule": "an evaluation = one (allocating entry point, releasing/resizing/querying entry point, size, alignment) combination executed in an overriding process with mi_is_in_heap_region / "
                         "mi_usable_size / malloc_usable_size checks and content checks, or one whole program compared with and without the preload; distinct_nontrivial = distinct (allocator, releaser) pairs",
                 "samples": [{"pair": "posix_memalign -> operator delete(sized)"}, {"pair": "getline (libc internal) -> realloc(grow)"}, {"whole": whole[0][1][:2]}]})
